@@ -322,10 +322,60 @@ Section BVP.
     rewrite countmasked_ok by (auto; apply Hjs; left; auto). simpl. rewrite IH by (intros; apply Hjs; right; auto). reflexivity.
   Qed.
 
+  Lemma count_cons (x : bool) r : c11_bitset_count (x :: r) = (if x then 1 else 0) + c11_bitset_count r.
+  Proof. unfold c11_bitset_count. simpl. destruct x; reflexivity. Qed.
+  Lemma any_count (b : list bool) : existsb (fun x => x) b = negb (c11_bitset_count b =? 0).
+  Proof. induction b as [| x b IH]. reflexivity. rewrite count_cons. destruct x; simpl; auto. Qed.
+
+  Lemma rqueries_ok w i b : c11_bv_wf w -> nth_error w i = Some b ->
+    c11_bv_rqueries bs (concat w) i = C11_ok (c11_bvs_queries w i b).
+  Proof.
+    intros Hwf Hi. pose proof (wf_len w i b Hwf Hi) as Hb.
+    assert (Hlen : i < length w) by (apply nth_error_Some; congruence).
+    assert (Gc : forall k j, j + k = bs -> c11_bv_rcount_loop bs k j (concat w) i = C11_ok (c11_bitset_count (skipn j b))).
+    { induction k as [| k IH]; intros j Hj; simpl.
+      - rewrite skipn_all2 by lia. reflexivity.
+      - destruct (c11_bitset_addressing_lemma w i j b false Hwf Hi) as (Hg & _ & _). lia.
+        rewrite Hg. simpl. rewrite IH by lia. simpl. rewrite (c11_skipn_nth_d b j false) by lia. rewrite count_cons. reflexivity. }
+    assert (Ga : forall k j, j + k = bs -> c11_bv_rall_loop bs k j (concat w) i = C11_ok (forallb (fun x => x) (skipn j b))).
+    { induction k as [| k IH]; intros j Hj; simpl.
+      - rewrite skipn_all2 by lia. reflexivity.
+      - destruct (c11_bitset_addressing_lemma w i j b false Hwf Hi) as (Hg & _ & _). lia.
+        rewrite Hg. simpl. rewrite (c11_skipn_nth_d b j false) by lia. simpl. destruct (nth j b false); simpl; auto. apply IH. lia. }
+    set (o := S i mod length w).
+    assert (Ho : o < length w) by (apply Nat.mod_upper_bound; lia).
+    destruct (nth_error w o) as [x |] eqn:Ex; [| apply nth_error_None in Ex; lia].
+    pose proof (wf_len w o x Hwf Ex) as Hx.
+    assert (Ge : forall k j, j + k = bs -> c11_bv_requals_loop bs k j (concat w) i o = C11_ok (c11_bits_eqb (skipn j b) (skipn j x))).
+    { induction k as [| k IH]; intros j Hj; simpl.
+      - rewrite !skipn_all2 by lia. reflexivity.
+      - destruct (c11_bitset_addressing_lemma w i j b false Hwf Hi) as (Hg & _ & _). lia.
+        destruct (c11_bitset_addressing_lemma w o j x false Hwf Ex) as (Hg2 & _ & _). lia.
+        rewrite Hg, Hg2. simpl. rewrite IH by lia. simpl.
+        rewrite (c11_skipn_nth_d b j false), (c11_skipn_nth_d x j false) by lia. reflexivity. }
+    unfold c11_bv_rqueries, c11_bv_rnone, c11_bv_rany, c11_bv_rcount, c11_bv_rall, c11_bv_requals, c11_bv_rnot, c11_bvs_queries.
+    rewrite size_ok by auto. fold o.
+    rewrite (Gc bs 0) by lia. rewrite (Ga bs 0) by lia. rewrite (Ge bs 0) by lia. rewrite (repr_ok w i b Hwf Hi). simpl.
+    rewrite any_count. rewrite (nth_error_nth w o [] Ex). reflexivity.
+  Qed.
+
+  Lemma rqueries_loop_ok w : c11_bv_wf w ->
+    c11_bv_rqueries_loop bs (length w) 0 (concat w) = C11_ok (c11_bvs_queries_from w 0 w).
+  Proof.
+    intros Hwf.
+    assert (G : forall k i, i + k = length w -> c11_bv_rqueries_loop bs k i (concat w) = C11_ok (c11_bvs_queries_from w i (skipn i w))).
+    { induction k as [| k IH]; intros i Hi; simpl.
+      - rewrite skipn_all2 by lia. reflexivity.
+      - destruct (nth_error w i) as [b |] eqn:Ei; [| apply nth_error_None in Ei; lia].
+        rewrite (rqueries_ok w i b Hwf Ei). simpl. rewrite IH by lia. simpl. rewrite (c11_skipn_nth w i b Ei). reflexivity. }
+    apply (G (length w) 0). lia.
+  Qed.
+
   Lemma bv_observe_sim : forall s w, Rb s w -> c11_bv_observe bs s = C11_ok (c11_bvs_observe bs w).
   Proof.
     intros s w [-> Hwf]. unfold c11_bv_observe, c11_bvs_observe. rewrite blocks_ok by auto. simpl.
     rewrite cms_ok by (auto; intros j Hj; apply in_seq in Hj; lia). simpl.
+    rewrite size_ok by auto. rewrite rqueries_loop_ok by auto. simpl.
     unfold c11_bv_count. rewrite count_concat. reflexivity.
   Qed.
 
